@@ -1,21 +1,54 @@
 import vf
 
+FILES = ["search/zz_verif_c19_test.go", "search/zz_verif_c19race_test.go"]
 SPEC = dict(
     level="proof",
-    harness=dict(pkg_dir="search", run="TestVerifC19$", files=["search/zz_verif_c19_test.go"],
-                 n_quick=40, n_thorough=500),
+    harness=dict(pkg_dir="search", run="TestVerifC19$", files=FILES, n_quick=40, n_thorough=500),
     runner=dict(imports=["From ZV Require Import Lib.Base Model.Watcher."], case_type="c19case",
                 mismatch_fn="c19_mismatches", shard=150),
     rule="script cases: 4-9 steps of 1-3 directory changes each (create / replace by rename / delete / sidecar write+delete / junk / "
-         "odd *.zoekt names / unloadable files; names x versions {15,16,17,18} x shard {0,1}; fresh, equal and sidecar-dominated "
-         "mtimes) on a scratch directory, explicit scan() after each step, real Lstat mtimes; non-trivial = at least one drop and one "
-         "reload after the first scan. vfp cases: versionFromPath on builder-style and random strings over {_ . v digits + - / ...}.",
+         "odd *.zoekt names incl. '_.'-names / unloadable files; names x versions {15,16,17,18} x shard {0,1}; fresh, equal and "
+         "sidecar-dominated mtimes) on a scratch directory, explicit scan() after each step, real Lstat mtimes; non-trivial = at "
+         "least one drop and one reload after the first scan. vfp cases (4 per script): versionFromPath on builder-style and "
+         "random strings over {_ . v digits + - / ...}; non-trivial = contains both '_' and '.'.",
     trusted_base=["correspondence harness harness/overlay/search/zz_verif_c19_test.go (directory scripts, content identities via a "
                   "real search on each loaded shard, Go oracle)",
                   "filepath.Glob / os.Lstat / strconv.Atoi modelled by their contracts (suffix filter, listing lookup, signed decimal int64)",
-                  "data races / use-after-unmap (finalizer + KeepAlive) are NOT modelled: partial, see level_note"],
-    assumptions=["directory listings have unique paths", "shard files are complete when they appear (installed by rename)"],
+                  "PARTIAL: data races / use-after-unmap (finalizer + KeepAlive, mmap) are not modelled; thorough tier adds a -race "
+                  "stress run of a real DirectorySearcher (harness/overlay/search/zz_verif_c19race_test.go) as evidence, not proof"],
+    assumptions=["directory listings have unique paths",
+                 "convergence theorems: a file never changes content while keeping its effective mtime (known finding stale:equal-mtime otherwise)",
+                 "shard files are complete when they appear (installed by rename)"],
 )
 
+
 def run(ctx):
-    return vf.standard_check(ctx, SPEC)
+    if ctx.tier != "thorough":
+        return vf.standard_check(ctx, SPEC)
+    # thorough tier: -race stress run of the real directory searcher (supporting evidence for the runtime half)
+    hr = vf.go_harness(ctx, "search", "TestVerifC19Race$", FILES, 300, race=True, timeout=420, out_name="race.jsonl")
+    extra_fail, extra_broken, info = [], [], {}
+    for r in hr["records"]:
+        if r.get("kind") == "oracle_fail":
+            extra_fail.append(dict(key=r.get("key", "?"), what=r.get("what", ""), replay=r.get("replay")))
+        elif r.get("kind") == "info":
+            info.update({k: v for k, v in r.items() if k != "kind"})
+    if "DATA RACE" in hr["log"]:
+        extra_fail.append(dict(key="race:data-race", what="the race detector reported a data race during concurrent reloads and searches",
+                               replay=dict(seed=ctx.seed, log=hr["log"][-3000:])))
+    elif hr["rc"] != 0 and not extra_fail:
+        # supporting evidence only: a run that neither reports a race nor an oracle failure (e.g. it timed out on an
+        # overloaded machine) is recorded as inconclusive, it does not decide the verdict
+        info["race_stress_inconclusive"] = "rc=%d: %s" % (hr["rc"], hr["log"][-300:])
+    orig = vf.finish
+
+    def finish2(ctx_, level, proofs, coverage, failures=(), broken=(), **kw):
+        coverage = dict(coverage)
+        coverage["race_stress"] = dict(info.get("race_stress", {}), rc=hr["rc"], race_detector=True,
+                                       inconclusive=info.get("race_stress_inconclusive", ""))
+        return orig(ctx_, level, proofs, coverage, failures=list(failures) + extra_fail, broken=list(broken) + extra_broken, **kw)
+    vf.finish = finish2
+    try:
+        return vf.standard_check(ctx, SPEC)
+    finally:
+        vf.finish = orig
